@@ -5901,6 +5901,9 @@ class CodegenCtx:
             transition_body.add()
             transition_body.add(f"// action {action!r} ")
             transition_body += self._generate_action_implementation(action, is_end=from_end, transition=transition, early_advanced=early_advanced)
+            if action.get_target_override_mode() == ActionOverrideMode.ALWAYS_GOTO_UNDEFINED:
+                # nothing after an unconditional finish is ever executed (and its targets may already have been removed)
+                break
         if any(
             any(
                 ProgramData.lookup(subact, DTAG.ACTION_MAY_SKIP, recurse_upwards=False, default=False) for subact in action.all_subactions()
